@@ -5,5 +5,7 @@ CONSTANTS
   Fuel = 2
   MaxLen = 3
   Langs = {"go", "python"}
+  Win = 0
+  From = 0
 INVARIANT Emit
 CHECK_DEADLOCK FALSE
